@@ -54,7 +54,10 @@ ExpectV(kind, v, rt) ==
     [] kind = "booltrue"  -> v = Num("true")
     [] kind = "boolfalse" -> v = Num("false")
     [] kind = "dur"       -> v = Num("1500000000")
-    [] kind = "time"      -> IsStr(v) /\ rt
+    [] kind \in {"time", "timeZ"} -> IsStr(v) /\ rt      \* rt: the literal (and for timeZ the record's own time) parses back to the same instant
+    [] kind \in {"rawPretty", "rawTrailingNL", "valuerRawPretty"} -> v = Obj(<<[k |-> "a", v |-> Num("1")]>>)
+    [] kind = "rawInMap"  -> v = Obj(<<[k |-> "a", v |-> Num("1")]>>)
+    [] kind = "rawGarbage" -> IsStr(v)
     [] kind \in {"err", "valuerErr"} -> v = S("E!")
     [] kind = "ansi"      -> v = S("AV")
     [] kind \in {"nil", "strptrnil"} -> v = Num("null")
